@@ -78,6 +78,10 @@ func (w *WalletManager) constructTxIn(inputs []*TxIn, lockTime uint64) (*wire.Ms
 			return nil, nil, massutil.ZeroAmount(), ErrInvalidParameter
 		}
 
+		if len(prevTx.TxOut) <= int(txIn.PreviousOutPoint.Index) {
+			logging.CPrint(logging.ERROR, "input vout out of range", logging.LogFormat{"txid": input.TxId, "vout": input.Vout})
+			return nil, nil, massutil.ZeroAmount(), ErrInvalidParameter
+		}
 		prevTxOut := prevTx.TxOut[txIn.PreviousOutPoint.Index]
 		pks, err := utils.ParsePkScript(prevTxOut.PkScript, w.chainParams)
 		if err != nil {
